@@ -10,6 +10,7 @@
      kwargs    (root, ctx, info, **kw)     compatible with every field
      missing   (root, ctx, info)           incompatible with `strict` and `loose` (no parameter for a), fine for `plain`
      few       (root, ctx)                 incompatible with every field (fewer than 3 positional parameters)
+     varargs   (root, ctx, info, *args)    like missing: field arguments are passed by keyword, *args cannot receive them
    State: res[f] = signature class assigned to field f ("none" = no resolver), memo = what validate() last concluded.
    Actions: Register(f, c) (with override), Validate.  The specification's verdict is a function of the CURRENT state:
    every Validate step records whether validate() must raise.  The same function object may be assigned to several fields
@@ -17,12 +18,12 @@
 EXTENDS Naturals, Sequences, FiniteSets, TLC, Json
 CONSTANT MaxOps
 Fields == {"strict", "loose", "plain"}
-Classes == {"exact", "default", "kwargs", "missing", "few"}
+Classes == {"exact", "default", "kwargs", "missing", "few", "varargs"}
 Compatible(f, c) ==
   CASE c = "none" -> TRUE
     [] c \in {"default", "kwargs"} -> TRUE
     [] c = "exact" -> f = "strict"
-    [] c = "missing" -> f = "plain"
+    [] c \in {"missing", "varargs"} -> f = "plain"
     [] c = "few" -> FALSE
 VARIABLES res, hist
 vars == <<res, hist>>
